@@ -373,7 +373,38 @@ def run_model(model: str, cases: Sequence[Any], chunk: int = 0) -> List[Any]:
     for c, r in zip(cases, res):
         if isinstance(r, list) and r and r[0] in ("BAD-CASE", "RUNNER-ERROR"):
             raise RuntimeError(f"model rejected case {sx_dumps(c)[:300]}: {r}")
+    if os.environ.get("VERIF_PERTURB_MODEL"):
+        # liveness self-test of the correspondence (tools/liveness.sh): corrupt every k-th model
+        # answer; a check that still exits 0 is not really comparing the model with the code
+        k = max(1, int(os.environ["VERIF_PERTURB_MODEL"]))
+        res = [_perturb(r) if i % k == 0 else r for i, r in enumerate(res)]
     return res
+
+
+def _perturb(x: Any) -> Any:
+    """Change the first boolean/number atom of a model answer (or append a junk element)."""
+    done = [False]
+
+    def go(y):
+        if done[0]:
+            return y
+        if isinstance(y, str):
+            if y == "T":
+                done[0] = True
+                return "F"
+            if y == "F":
+                done[0] = True
+                return "T"
+            if y.isdigit():
+                done[0] = True
+                return str(int(y) + 1)
+            return y
+        return [go(z) for z in y]
+
+    out = go(x)
+    if not done[0]:
+        out = (out + ["PERTURBED"]) if isinstance(out, list) else out + "~"
+    return out
 
 
 def _unlimit_stack():
